@@ -9,7 +9,7 @@ from framework import Run
 
 PROP = 'C12'
 F_EXP = 'C12-commented-dict-exponential'
-BUDGET = 30_000_000       # LINE events: a run beyond this counts as non-terminating for the check
+BUDGET = 6_000_000       # LINE events: a run beyond this counts as non-terminating for the check
 RATIO = 10.0              # doubling the parameter may multiply the steps by at most this (cubic + slack)
 
 
@@ -71,7 +71,7 @@ def run_one(term, cfg):
         with warnings.catch_warnings():
             warnings.simplefilter('ignore')
             return pformat(v, **cfg)
-    text, total, pops = stepcount.measure(go)
+    text, total, pops = stepcount.measure(go, limit=BUDGET)
     return text, total, pops, sx
 
 
@@ -102,6 +102,19 @@ def main(tier):
                         table.setdefault(fam, []).append((ci, n, 'RecursionError'))
                         prev = None
                         continue
+                    except stepcount.StepBudgetExceeded:
+                        table.setdefault(fam, []).append((ci, n, '>%d' % BUDGET))
+                        run.count(1)
+                        msg = 'pformat did not finish within %d interpreter steps for parameter %d%s' % (
+                            BUDGET, n, (' (parameter %d took %d steps)' % prev if prev else ''))
+                        if fam == 'commented-dict-values-at-every-level' and F_EXP in open_f:
+                            if not any(F_EXP in l for l in run.known_lines):
+                                run.known(F_EXP, '%s; measured: %s' % (open_f[F_EXP]['what'][:200], msg))
+                        else:
+                            viol += 1
+                            if viol <= 3:
+                                run.violation({'kind': 'oracle', 'family': fam, 'parameter': n, 'cfg': cfg, 'detail': msg})
+                        break
                     run.count(1)
                     table.setdefault(fam, []).append((ci, n, total))
                     msg = None
@@ -182,7 +195,11 @@ def replay(path):
         return 1
     mk, ns = FAMILIES[p['family']]
     n = p['parameter']
-    _t, a, _p, _s = run_one(mk(n // 2), p['cfg'])
-    _t, b, _p, _s = run_one(mk(n), p['cfg'])
+    try:
+        _t, a, _p, _s = run_one(mk(n // 2), p['cfg'])
+        _t, b, _p, _s = run_one(mk(n), p['cfg'])
+    except stepcount.StepBudgetExceeded:
+        print('did not finish within', BUDGET, 'steps')
+        return 1
     print('steps at', n // 2, '=', a, '; at', n, '=', b, '; ratio', b / a)
     return 1 if (b > RATIO * a or b > BUDGET) else 0
